@@ -30,10 +30,42 @@ pub struct WriterCase {
 #[derive(Clone, Debug, Serialize, Deserialize)]
 pub enum WriterAny {
     Hist(WriterCase),
-    Big { n: u32, style: u8, stride: u16, take_every: u8, attacks: Vec<(u16, u16)> },
+    Big {
+        n: u32,
+        style: u8,
+        stride: u16,
+        take_every: u8,
+        attacks: Vec<(u16, u16)>,
+        #[serde(default)]
+        sink: u8,
+    },
 }
 
 pub struct Writers;
+
+/// A sink that takes at most `max` bytes per `write` call (0 = everything), as `std::io::Write` allows
+/// (sockets, windowed writers): a writer that ignores the count returned by `write` loses bytes here.
+pub struct Trickle {
+    pub data: Vec<u8>,
+    pub max: usize,
+}
+
+impl Trickle {
+    pub fn new(kind: u8) -> Trickle {
+        Trickle { data: vec![], max: [0usize, 1, 7, 4096, 65_535, 3][kind as usize % 6] }
+    }
+}
+
+impl std::io::Write for Trickle {
+    fn write(&mut self, buf: &[u8]) -> std::io::Result<usize> {
+        let k = if self.max == 0 { buf.len() } else { buf.len().min(self.max) };
+        self.data.extend_from_slice(&buf[..k]);
+        Ok(k)
+    }
+    fn flush(&mut self) -> std::io::Result<()> {
+        Ok(())
+    }
+}
 
 fn big_label(style: u8, i: usize) -> String {
     match style % 4 {
@@ -44,7 +76,8 @@ fn big_label(style: u8, i: usize) -> String {
     }
 }
 
-fn run_big(n: u32, style: u8, stride: u16, take_every: u8, attacks: &[(u16, u16)], rec: &mut Rec) -> CheckResult {
+#[allow(clippy::too_many_arguments)]
+fn run_big(n: u32, style: u8, stride: u16, take_every: u8, attacks: &[(u16, u16)], sink: u8, rec: &mut Rec) -> CheckResult {
     let n = n as usize;
     rec.eval();
     // ---- extensions
@@ -53,8 +86,9 @@ fn run_big(n: u32, style: u8, stride: u16, take_every: u8, attacks: &[(u16, u16)
     let step = take_every.max(1) as usize;
     let sel: Vec<usize> = (0..n).filter(|i| i % step == 0).collect();
     let args: Vec<&Argument<String>> = sel.iter().map(|i| set.get_argument(&labels[*i]).unwrap()).collect();
-    let mut b: Vec<u8> = vec![];
-    ResponseWriter::<String>::write_single_extension(&AspartixWriter, &mut b, &args).map_err(|e| Failure::new("C14/big/aspartix-extension/error", e.to_string()))?;
+    let mut tb = Trickle::new(sink);
+    ResponseWriter::<String>::write_single_extension(&AspartixWriter, &mut tb, &args).map_err(|e| Failure::new("C14/big/aspartix-extension/error", e.to_string()))?;
+    let b = tb.data;
     let want = format!("[{}]\n", sel.iter().map(|i| labels[*i].clone()).collect::<Vec<_>>().join(","));
     if b != want.as_bytes() {
         let pos = b.iter().zip(want.as_bytes()).position(|(x, y)| x != y).unwrap_or(b.len().min(want.len()));
@@ -67,8 +101,9 @@ fn run_big(n: u32, style: u8, stride: u16, take_every: u8, attacks: &[(u16, u16)
     let ulabels: Vec<usize> = (0..n).map(ulab).collect();
     let uset = ArgumentSet::new_with_labels(&ulabels);
     let uargs: Vec<&Argument<usize>> = sel.iter().map(|i| uset.get_argument(&ulab(*i)).unwrap()).collect();
-    let mut b: Vec<u8> = vec![];
-    ResponseWriter::<usize>::write_single_extension(&Iccma23Writer, &mut b, &uargs).map_err(|e| Failure::new("C14/big/iccma23-extension/error", e.to_string()))?;
+    let mut tb = Trickle::new(sink);
+    ResponseWriter::<usize>::write_single_extension(&Iccma23Writer, &mut tb, &uargs).map_err(|e| Failure::new("C14/big/iccma23-extension/error", e.to_string()))?;
+    let b = tb.data;
     let mut want = String::from("w");
     for i in &sel {
         want.push(' ');
@@ -105,9 +140,9 @@ fn run_big(n: u32, style: u8, stride: u16, take_every: u8, attacks: &[(u16, u16)
             live.push(i);
         }
     }
-    let mut buf: Vec<u8> = vec![];
-    AspartixWriter.write_framework(&af, &mut buf).map_err(|e| Failure::new("C14/big/write_framework/error", e.to_string()))?;
-    let text = String::from_utf8(buf).map_err(|_| Failure::new("C14/big/write_framework/not-utf8", ""))?;
+    let mut tb = Trickle::new(sink);
+    AspartixWriter.write_framework(&af, &mut tb).map_err(|e| Failure::new("C14/big/write_framework/error", e.to_string()))?;
+    let text = String::from_utf8(tb.data).map_err(|_| Failure::new("C14/big/write_framework/not-utf8", ""))?;
     let (pl, pa) = parse_written(&text).map_err(|e| Failure::new("C14/big/write_framework/unexpected-text", e))?;
     let want_labels: Vec<String> = live.iter().map(|i| labels[*i].clone()).collect();
     if pl != want_labels {
@@ -124,6 +159,7 @@ fn run_big(n: u32, style: u8, stride: u16, take_every: u8, attacks: &[(u16, u16)
     if bl != want_labels || ba != want_atts {
         return Err(Failure::new("C14/big/read-back/differs", format!("{} arguments {} attacks read, {} / {} expected", bl.len(), ba.len(), want_labels.len(), want_atts.len())));
     }
+    rec.class(&format!("sink-takes-at-most-{}-bytes-per-write", Trickle::new(sink).max));
     rec.class(&format!("big-extension-bytes-{}", if want.len() > 65536 { ">64KiB" } else if want.len() > 4096 { ">4KiB" } else { "small" }));
     if rec.nontrivial(&(n, style, stride, take_every, attacks.len())) {
         rec.sample(|| json!({"big": {"labels": n, "extension_members": sel.len(), "aspartix_extension_bytes": want.len(), "framework_text_bytes": text.len(), "attacks": want_atts.len()}}));
@@ -162,15 +198,15 @@ impl Prop for Writers {
         "C14"
     }
     fn rule(&self) -> String {
-        "A framework over identifier labels (four identifier styles incl. leading underscore, names 'arg'/'att') is produced by an update history of 0-60 (quick) / 0-200 (thorough) operations (so removed arguments and attacks leave tombstones), written with AspartixWriter::write_framework, checked byte-wise by an independent tokenizer against the set model (labels in creation order, attack set, nothing else) and read back with AspartixReader (same labels in the same order, same attacks). A generated ordered selection of its arguments (possibly empty) is written by AspartixWriter and, over usize labels with a generated stride, by Iccma23Writer; the bytes must be exactly '[' labels joined by ',' ']\\n' resp. 'w' (' ' label)* '\\n'; statuses exactly YES\\n / NO\\n; write_no_extension exactly NO\\n. One case in 4000 is LARGE: 0-30000 (thorough: 120000) labels of four styles, every 1st-3rd of them written as an extension by both writers (output from a few bytes to over 1 MiB, compared byte for byte), and a framework of that many arguments with up to 400 attacks spread over it and every fifth argument removed, written, tokenized, and read back. Non-trivial: the history removed >=1 argument and >=1 attack and the extension has >=2 members; distinct = case.".into()
+        "A framework over identifier labels (four identifier styles incl. leading underscore, names 'arg'/'att') is produced by an update history of 0-60 (quick) / 0-200 (thorough) operations (so removed arguments and attacks leave tombstones), written with AspartixWriter::write_framework, checked byte-wise by an independent tokenizer against the set model (labels in creation order, attack set, nothing else) and read back with AspartixReader (same labels in the same order, same attacks). A generated ordered selection of its arguments (possibly empty) is written by AspartixWriter and, over usize labels with a generated stride, by Iccma23Writer; the bytes must be exactly '[' labels joined by ',' ']\\n' resp. 'w' (' ' label)* '\\n'; statuses exactly YES\\n / NO\\n; write_no_extension exactly NO\\n. The sink is a plain byte vector or one that takes only 1, 3, 7, 4096 or 65535 bytes per write call (short writes are legal for std::io::Write). One case in 4000 is LARGE: 0-30000 (thorough: 120000) labels of four styles, every 1st-3rd of them written as an extension by both writers (output from a few bytes to over 1 MiB, compared byte for byte), and a framework of that many arguments with up to 400 attacks spread over it and every fifth argument removed, written, tokenized, and read back. Non-trivial: the history removed >=1 argument and >=1 attack and the extension has >=2 members; distinct = case.".into()
     }
     fn assumptions(&self) -> Vec<String> {
         vec!["labels are valid Aspartix identifiers, as the property states".into()]
     }
     fn strategy(&self, tier: Tier) -> BoxedStrategy<WriterAny> {
         let nbig = tier.pick(30_000u32, 120_000u32);
-        let big = (prop_oneof![3 => 0u32..200, 2 => 200u32..5_000, 1 => 5_000u32..nbig], 0u8..4, 1u16..2000, 1u8..4, vec((any::<u16>(), any::<u16>()), 0..=400))
-            .prop_map(|(n, style, stride, take_every, attacks)| WriterAny::Big { n, style, stride, take_every, attacks });
+        let big = (prop_oneof![3 => 0u32..200, 2 => 200u32..5_000, 1 => 5_000u32..nbig], 0u8..4, 1u16..2000, 1u8..4, vec((any::<u16>(), any::<u16>()), 0..=400), 0u8..6)
+            .prop_map(|(n, style, stride, take_every, attacks, sink)| WriterAny::Big { n, style, stride, take_every, attacks, sink });
         prop_oneof![4000 => self.hist_strategy(tier).prop_map(WriterAny::Hist), 1 => big].boxed()
     }
     fn n_cases(&self, tier: Tier) -> u32 {
@@ -179,7 +215,7 @@ impl Prop for Writers {
     fn run(&self, case: &WriterAny, rec: &mut Rec) -> CheckResult {
         match case {
             WriterAny::Hist(c) => self.run_hist(c, rec),
-            WriterAny::Big { n, style, stride, take_every, attacks } => run_big(*n, *style, *stride, *take_every, attacks, rec),
+            WriterAny::Big { n, style, stride, take_every, attacks, sink } => run_big(*n, *style, *stride, *take_every, attacks, *sink, rec),
         }
     }
 }
@@ -242,11 +278,12 @@ impl Writers {
         let want_labels: Vec<String> = order.iter().map(|l| lab(*l)).collect();
         let want_atts: BTreeSet<(String, String)> = atts.iter().map(|(a, b)| (lab(*a), lab(*b))).collect();
         // 1. framework text
-        let mut buf: Vec<u8> = vec![];
-        guard(|| AspartixWriter.write_framework(&af, &mut buf))
+        // the sink takes everything, or only 1 / 3 / 7 bytes per write call (legal for std::io::Write)
+        let mut tb = Trickle::new(case.style.wrapping_add(case.usize_stride) % 6);
+        guard(|| AspartixWriter.write_framework(&af, &mut tb))
             .map_err(|p| Failure::new("C14/write_framework/panic", p))?
             .map_err(|e| Failure::new("C14/write_framework/error", e.to_string()))?;
-        let text = String::from_utf8(buf).map_err(|_| Failure::new("C14/write_framework/not-utf8", ""))?;
+        let text = String::from_utf8(tb.data).map_err(|_| Failure::new("C14/write_framework/not-utf8", ""))?;
         let (pl, pa) = parse_written(&text).map_err(|e| Failure::new("C14/write_framework/unexpected-text", format!("{} in {:?}", e, text)))?;
         if pl != want_labels {
             return Err(Failure::new("C14/write_framework/arguments-differ-from-model", format!("written {:?} model {:?}", pl, want_labels)));
@@ -284,9 +321,10 @@ impl Writers {
         {
             rec.eval();
             let args: Vec<&Argument<String>> = sel.iter().map(|l| af.argument_set().get_argument(&lab(*l)).unwrap()).collect();
-            let mut b: Vec<u8> = vec![];
-            ResponseWriter::<String>::write_single_extension(&AspartixWriter, &mut b, &args)
+            let mut tb = Trickle::new(case.usize_stride);
+            ResponseWriter::<String>::write_single_extension(&AspartixWriter, &mut tb, &args)
                 .map_err(|e| Failure::new("C14/aspartix-extension/error", e.to_string()))?;
+            let b = tb.data;
             let want = format!("[{}]\n", sel.iter().map(|l| lab(*l)).collect::<Vec<_>>().join(","));
             if b != want.as_bytes() {
                 return Err(Failure::new(
@@ -301,9 +339,10 @@ impl Writers {
             let all: Vec<usize> = order.iter().map(|l| ulab(*l)).collect();
             let set = ArgumentSet::new_with_labels(&all);
             let args: Vec<&Argument<usize>> = sel.iter().map(|l| set.get_argument(&ulab(*l)).unwrap()).collect();
-            let mut b: Vec<u8> = vec![];
-            ResponseWriter::<usize>::write_single_extension(&Iccma23Writer, &mut b, &args)
+            let mut tb = Trickle::new(case.style);
+            ResponseWriter::<usize>::write_single_extension(&Iccma23Writer, &mut tb, &args)
                 .map_err(|e| Failure::new("C14/iccma23-extension/error", e.to_string()))?;
+            let b = tb.data;
             let mut want = String::from("w");
             for l in &sel {
                 want.push(' ');
